@@ -42,7 +42,8 @@ GATED = {
 }
 UNGATED = {'get_config', 'get_blockchain_info', 'http_request'}
 # exported methods that are neither data endpoints nor listed as always-answering by the property
-OTHER = {'set_config': 'controller/watchdog-only configuration endpoint (own caller check; C14 does not cover it)'}
+OTHER = {'set_config': 'controller/watchdog-only configuration endpoint (own caller check; C14 does not cover it)',
+         'has_canbench': 'exists only under the canbench-rs cargo feature (benchmark build, never deployed)'}
 
 
 def exported(prog):
